@@ -286,7 +286,12 @@ func c17fill(r *c17rng, v reflect.Value, depth int) {
 	case reflect.String:
 		v.SetString(fmt.Sprintf("s%d", r.next()%1000))
 	case reflect.Slice:
-		if r.next()%5 == 0 {
+		switch r.next() % 6 {
+		case 0:
+			return
+		case 1:
+			// allocated but empty: the copy must be empty and non-nil too (reflect.DeepEqual tells them apart)
+			v.Set(reflect.MakeSlice(v.Type(), 0, int(r.next()%3)))
 			return
 		}
 		n := int(r.next()%3) + 1
@@ -300,7 +305,11 @@ func c17fill(r *c17rng, v reflect.Value, depth int) {
 			c17fill(r, v.Index(i), depth+1)
 		}
 	case reflect.Map:
-		if r.next()%5 == 0 {
+		switch r.next() % 6 {
+		case 0:
+			return
+		case 1:
+			v.Set(reflect.MakeMap(v.Type()))
 			return
 		}
 		m := reflect.MakeMap(v.Type())
